@@ -306,10 +306,125 @@ CaseResult run_dyn_big(const RunCtx &ctx, TapeReader &t) {
     return res;
 }
 
+/// "growth" mode: a container that starts empty (or from a small bulk) and grows through every level the default parameters create on
+/// the way to 10^5 entries, over a universe of 35 000 .. 120 000 distinct keys, with overwrites and erases of keys of every age.  Each
+/// new level is created exactly once per container, so whatever happens only at that moment needs a history this long.
+template<typename K>
+CaseResult run_dyn_growth(const RunCtx &ctx, TapeReader &t) {
+    using C = CDyn<K>;
+    CaseResult res;
+    const bool mem = ctx.mode == "mem";
+    const size_t U = 35000 + t.below(85000);
+    const size_t n_ops = 45000 + t.below(110000);
+    const size_t bulk = t.chance(1, 3) ? t.below(3000) : 0;
+    const uint64_t stride = 1 + t.below(1000);
+    const unsigned p_fresh = 40 + (unsigned) t.below(40), p_erase = 10 + (unsigned) t.below(30); // per cent; the rest overwrites
+    const uint64_t seed = t.bits(64);
+    if (ctx.want_desc) {
+        std::ostringstream d;
+        d << "dynamic_pgm_index_" << type_name<K>() << " growth: bulk " << bulk << ", then " << n_ops << " updates over " << U << " keys (stride " << stride << "): " << p_fresh
+          << "% inserts of the next fresh key, " << p_erase << "% erases and the rest overwrites of keys of any age; find after every update, full walk every 20000\n";
+        res.desc = d.str();
+    }
+    if (!ctx.execute) return res;
+    SplitMix pr(seed);
+    auto key_of = [&](size_t i) { return (K) (1000 + (uint64_t) i * stride % 2000000000ull); };
+    if (stride * U >= 2000000000ull) return res; // keys would wrap: not this class
+    std::map<K, K> model;
+    std::vector<typename C::P> pairs;
+    size_t fresh = 0;
+    uint32_t next_val = 1;
+    for (; fresh < bulk; ++fresh) {
+        K v = (K) next_val++;
+        pairs.push_back({key_of(fresh), v});
+        model.emplace(key_of(fresh), v);
+    }
+    typename C::H *h = bulk ? C::create(pairs.data(), pairs.size()) : C::create_empty();
+    if (!h) {
+        res.fail("create returned NULL on valid input");
+        return res;
+    }
+    res.label("dynamic_growth_history");
+    uint64_t checks = 0;
+    auto check_find = [&](K q) {
+        K v = K();
+        bool got = C::find(h, q, &v);
+        ++checks;
+        if (mem) return true;
+        auto it = model.find(q);
+        if (got != (it != model.end()) || (got && v != it->second)) {
+            res.fail("find(" + key_str(q) + ") = " + (got ? "true value " + key_str(v) : std::string("false")) + ", model " +
+                     (it == model.end() ? std::string("has no such key (never inserted or erased)") : "value " + key_str(it->second)));
+            return false;
+        }
+        return true;
+    };
+    auto full_walk = [&]() {
+        void *it = C::begin(h);
+        auto mit = model.begin();
+        bool ok = true;
+        for (;; ++mit) {
+            K k = K(), v = K();
+            bool more = C::next(h, it, &k, &v);
+            ++checks;
+            if (mem) {
+                if (!more) break;
+                continue;
+            }
+            if (mit == model.end()) {
+                if (more) res.fail("begin walk: iterator_next returned key " + key_str(k) + " after the model was exhausted"), ok = false;
+                break;
+            }
+            if (!more || k != mit->first || v != mit->second) {
+                res.fail("begin walk: iterator_next returned " + (more ? "(" + key_str(k) + "," + key_str(v) + ")" : std::string("false")) + ", model expects (" +
+                         key_str(mit->first) + "," + key_str(mit->second) + ")");
+                ok = false;
+                break;
+            }
+        }
+        C::it_destroy(it);
+        return ok;
+    };
+    for (size_t op = 0; op < n_ops && res.ok; ++op) {
+        unsigned r = (unsigned) pr.below(100);
+        if ((r < p_fresh && fresh < U) || fresh == 0) {
+            K k = key_of(fresh++), v = (K) next_val++;
+            C::insert(h, k, v);
+            model[k] = v;
+            check_find(k);
+        } else {
+            // a key of any age: uniformly old in half of the cases, among the last 2000 created otherwise
+            size_t idx = pr.below(2) ? pr.below(fresh) : fresh - 1 - pr.below(std::min<size_t>(fresh, 2000));
+            K k = key_of(idx);
+            if (r < p_fresh + p_erase) {
+                C::erase(h, k);
+                model.erase(k);
+            } else {
+                K v = (K) next_val++;
+                C::insert(h, k, v);
+                model[k] = v;
+            }
+            check_find(k);
+        }
+        if (next_val > 2000000000u) next_val = 1;
+        if (res.ok && op % 20000 == 19999) full_walk();
+    }
+    if (res.ok) full_walk();
+    if (res.ok) {
+        size_t sz = C::size(h);
+        if (!mem && sz != model.size()) res.fail("size() = " + std::to_string(sz) + ", model " + std::to_string(model.size()));
+    }
+    C::destroy(h);
+    res.sum("oracle_checks", checks);
+    res.nontrivial = true;
+    return res;
+}
+
 template<typename K>
 CaseResult run_dyn(const RunCtx &ctx, TapeReader &t, unsigned size_hint) {
     using C = CDyn<K>;
     if (size_hint >= 97 && ctx.mode != "mem" && t.chance(1, 10)) return run_dyn_big<K>(ctx, t);
+    if (size_hint >= 85 && t.chance(1, 5)) return run_dyn_growth<K>(ctx, t);
     CaseResult res;
     const bool mem = ctx.mode == "mem";
     KeyMeta meta;
@@ -506,7 +621,8 @@ static const char *rule(const std::string &) {
            "threads; 1/12 of them end with copies of the reserved value and must yield NULL; 2/3 of the others are queried while 1-2 further indexes of the same "
            "key type, created later with epsilons of their own over every 1st-3rd key, are alive, and those are checked too), 3/7 dynamic (int32/int64/uint32: create_empty / create(empty) / "
            "create(sorted pairs with repeats), then 4..210 calls of insert_or_assign, erase, runs of up to 3600 of them, find, lower_bound + iterator_next*k, "
-           "begin + walk to the end, size). oracle: O-range with the run-time epsilon against std::lower_bound; std::map for every dynamic call incl. the "
+           "begin + walk to the end, size; 1 dynamic case in ~30 is a growth history: 45 000..155 000 updates over 35 000..120 000 keys from an empty or small container, "
+           "find after every update and full walks). oracle: O-range with the run-time epsilon against std::lower_bound; std::map for every dynamic call incl. the "
            "iterator_next protocol (current pair then advance; false exactly at the end). non-trivial: static with epsilon != 1, an absent query and >= 2 "
            "segments; dynamic with > 700 updates (forces a merge out of the 585-entry buffer) and an iterator walked to the end; distinct by tape hash";
 }
